@@ -200,6 +200,10 @@ func (w *world) windowCall(m *mem, f []string) string {
 		ms, _ := strconv.ParseInt(f[2], 10, 64)
 		l, _ := strconv.ParseInt(f[3], 10, 64)
 		return errStr(m.alloc.SetTSO(tsoutil.ComposeTS(ms, l)))
+	case "writets":
+		ms, _ := strconv.ParseInt(f[2], 10, 64)
+		l, _ := strconv.ParseInt(f[3], 10, 64)
+		return errStr(tso.VerifResetUserTimestamp(m.alloc, m.ls, tsoutil.ComposeTS(ms, l), true))
 	}
 	return "bad-op"
 }
@@ -258,6 +262,8 @@ func (w *world) exec(op string) (string, int) {
 			return errStr(err), id
 		}
 		return fmt.Sprintf("ts %d %d", ts.Physical, ts.Logical), id
+	case f[0] == "cburst" && len(f) == 5 && f[4] == "cancel": // member, rounds, 1: the pd client with cancelled queued requests
+		return w.clientCancel(id, int(atoi(f[2]))), id
 	case f[0] == "cburst" && len(f) == 4: // member, goroutines, count: free-running concurrency, monitor only
 		n, cnt := int(atoi(f[2])), uint32(atoi(f[3]))
 		var ticks int64
@@ -316,8 +322,8 @@ func (w *world) exec(op string) (string, int) {
 	case f[0] == "resetmem" && len(f) == 2:
 		m.alloc.Reset()
 		return "ok", id
-	case (f[0] == "update" || f[0] == "sync") && len(f) == 4, f[0] == "setts" && len(f) == 5:
-		if f[0] != "setts" {
+	case (f[0] == "update" || f[0] == "sync") && len(f) == 4, (f[0] == "setts" || f[0] == "writets") && len(f) == 5:
+		if f[0] != "setts" && f[0] != "writets" {
 			atomic.StoreInt64(&w.now, atoi(f[2]))
 		}
 		m.gate.SetFault(fault(f[len(f)-1]))
@@ -538,7 +544,11 @@ func gen(w *world, t *trace.W, r *rng.R, maxOps int) {
 				tms = 1
 			}
 			tl %= 262144
-			w.run(t, fmt.Sprintf("setts %d %d %d %s", m, tms, tl, settsFaults[r.Intn(len(settsFaults))]))
+			verb := "setts"
+			if r.Bool(1, 3) {
+				verb = "writets" // the MaxTS path (WriteTSO / global synchronisation): resetUserTimestamp(ignoreSmaller)
+			}
+			w.run(t, fmt.Sprintf("%s %d %d %d %s", verb, m, tms, tl, settsFaults[r.Intn(len(settsFaults))]))
 		case 6:
 			nl := r.Range(1, k)
 			if !parked[nl] {
@@ -564,6 +574,10 @@ func gen(w *world, t *trace.W, r *rng.R, maxOps int) {
 		// free-running concurrent requests against a concurrently running updater (monitor only; last op)
 		w.run(t, fmt.Sprintf("sync %d %d none", leader, clock(leader)))
 		w.run(t, fmt.Sprintf("cburst %d %d %d", leader, r.Range(2, 8), []int{1, 1, 3, 50, 2000}[r.Intn(5)]))
+	} else if r.Bool(1, 6) {
+		// the real pd client in front of this member's allocator; queued requests whose callers give up
+		w.run(t, fmt.Sprintf("sync %d %d none", leader, clock(leader)))
+		w.run(t, fmt.Sprintf("cburst %d %d 1 cancel", leader, r.Range(1, 3)))
 	}
 }
 
